@@ -2050,7 +2050,9 @@ def run_c16(ctx):
         x, y = abs(M["pts"][i][d]), abs(N["pts"][i][d])
         if loose:
             want = None
-            if got or got_back:
+            # (the other mesh's default absolute tolerance is 1e-8 times ITS largest coordinate: the deviation has to be well beyond it)
+            beyond = abs(N["pts"][i][d] - M["pts"][i][d]) > 4 * Fr(float(b.absolute_tolerance))
+            if beyond and (got or got_back):
                 ctx.violation("E4", f"a coordinate differs by 1.5e-5 relative; the mesh with the default tolerances does not accept that, the one "
                                     f"with abs_tol={abs_set:g} would: equals answers {got} / {got_back} (asked the other way round) — the stricter "
                                     "tolerance has to decide in both directions", canon)
